@@ -136,6 +136,18 @@ fn main() {
     cov.insert("bilinearity".into(), json!({"law_holds": lt.bil[0], "law_fails": lt.bil[1], "near_miss": lt.bil[2], "law_holds_with_noncommutative_g": lt.bil[3]}));
     cov.insert("get_single_function_properties".into(), json!({"calls": lt.sfp, "cases_per_law_holding": lt.sfp_laws_reported}));
     rep.extra("coverage_per_checker", vcommon::Value::Object(cov));
+    // every documented component of every checker must have been the first (in textbook order) failing one somewhere
+    let ff = FIRST_FAILING.with(|m| m.borrow().clone());
+    let mut ffj = serde_json_map();
+    for ((ck, comp), k) in &ff {
+        ffj.insert(format!("{ck}:{comp}"), json!(k));
+    }
+    rep.extra("cases_per_first_failing_component", vcommon::Value::Object(ffj));
+    for (ck, comps) in EXPECTED_COMPONENTS {
+        for comp in comps.split(' ') {
+            rep.require(miri || ff.get(&(*ck, comp)).copied().unwrap_or(0) >= 3, &format!("{ck}: component {comp} was the first failing one in fewer than 3 cases"));
+        }
+    }
     rep.extra("panics_observed", json!(PANICS.load(Ordering::Relaxed)));
     rep.require(miri || (lt.lin[0] >= 1000 && lt.lin[1] >= 1000 && lt.lin[2] >= 100), "linearity: too few law-holding / law-failing / near-miss cases");
     rep.require(miri || lt.lin[3] >= 100, "linearity: fewer than 100 law-holding cases whose g is non-commutative on the image of q");
@@ -149,10 +161,38 @@ fn main() {
     }
     let exhaustive = !miri;
     rep.finish(
-        "Operation tables over carriers 0..n. Exhaustive: every table for n<=3 with every identity/absorbing/zero candidate and every inverse map (single-operation checkers); every pair of tables for n<=2 with every zero/one and every pair of inverse maps (two-operation checkers); for n=3 every table x every monoid/projection/constant table and every commutative monoid x every table (distributivity; thorough tier: all 19683^2 ordered pairs), every commutative monoid x every monoid x every zero/one x every inverse map (semiring..field), every single-cell change of every semiring on 3 elements; linearity: every (f,g,q) for carrier sizes {1,2,3}^2 except 3x3, for 3x3 every f x 12 well-known g (thorough: x every associative g) x every q; bilinearity: every (f,h,g,q) for sizes <=2, every q for sampled well-known (f,h,g) of size <=3 plus every single-cell change of the bilinear ones. Sampled: random pairs/triples on 3 elements; carriers of size 4-6 built from Z_n, GF(4), S3, lattices, tropical, projections, renamed by random permutations with 0-2 random cell changes and perturbed parameters; permuted/duplicated/sub-carrier item lists. Semiring applications: all triples over bool, 34 (thorough 110) multiplicities <= 2^10, costs <= 2^20 plus Infinity, dyadic k/4 (thorough k/16) confidence and fuzzy values. A case is non-trivial when the oracle finds the law holding or failing on at most 2 tuples (for get_single_function_properties: at least two laws hold; for the applications: three pairwise different values).",
+        "Operation tables over carriers 0..n. Exhaustive: every table for n<=3 with every identity/absorbing/zero candidate and every inverse map (single-operation checkers); every pair of tables for n<=2 with every zero/one and every pair of inverse maps (two-operation checkers); for n=3 every table x every monoid/projection/constant table and every commutative monoid x every table (distributivity; thorough tier: all 19683^2 ordered pairs), every commutative monoid x every monoid x every zero/one x every inverse map (semiring..field), every single-cell change of every semiring on 3 elements; linearity: every (f,g,q) for carrier sizes {1,2,3}^2 except 3x3, for 3x3 every f x 12 well-known g (thorough: x every associative g) x every q; bilinearity: every (f,h,g,q) for sizes <=2, every q for sampled well-known (f,h,g) of size <=3 plus every single-cell change of the bilinear ones. Sampled: random pairs/triples on 3 elements; carriers of size 4, 5, 6, 8 built from Z_n, GF(4), S3, upper-triangular 2x2 matrices over GF(2) (the smallest non-commutative unital ring), lattices, tropical, projections, renamed by random permutations with 0-2 random cell changes and perturbed parameters; permuted/duplicated/sub-carrier item lists. Semiring applications: all triples over bool, 34 (thorough 110) multiplicities <= 2^10, costs <= 2^20 plus Infinity, dyadic k/4 (thorough k/16) confidence and fuzzy values. A case is non-trivial when the oracle finds the law holding or failing on at most 2 tuples (for get_single_function_properties: at least two laws hold; for the applications: three pairwise different values).",
         exhaustive,
     );
 }
+
+/// Documented components per checker that can be the first failing one (textbook order; `f-inv(a)+a` and
+/// `g-inv(a)*a` cannot once the preceding commutativity component holds).
+const MONOID: &str = "assoc left-identity right-identity";
+const SEMIRING: &str = "f-assoc f-left-identity f-right-identity f-commutative g-assoc g-left-identity g-right-identity g-a*zero g-zero*a left-distributive right-distributive";
+const EXPECTED_COMPONENTS: &[(&str, &str)] = &[
+    ("identity", "left-identity right-identity"),
+    ("absorbing_element", "a*z z*a"),
+    ("inverse", "a*inv(a) inv(a)*a"),
+    ("nonzero_inverse", "a*inv(a) inv(a)*a"),
+    ("monoid", MONOID),
+    ("commutative_monoid", MONOID),
+    ("commutative_monoid", "commutative"),
+    ("group", MONOID),
+    ("group", "a*inv(a) inv(a)*a"),
+    ("abelian_group", MONOID),
+    ("abelian_group", "a*inv(a) inv(a)*a commutative"),
+    ("distributive", "left-distributive right-distributive"),
+    ("semiring", SEMIRING),
+    ("ring", SEMIRING),
+    ("ring", "f-a+inv(a)"),
+    ("commutative_ring", SEMIRING),
+    ("commutative_ring", "f-a+inv(a) g-commutative"),
+    ("integral_domain", SEMIRING),
+    ("integral_domain", "f-a+inv(a) g-commutative zero-divisor zero-ring"),
+    ("field", SEMIRING),
+    ("field", "f-a+inv(a) g-commutative g-a*inv(a)"),
+];
 
 fn serde_json_map() -> vcommon::serde_json::Map<String, vcommon::Value> {
     vcommon::serde_json::Map::new()
